@@ -8,6 +8,7 @@ import (
 	"context"
 	"fmt"
 	"io"
+	"strings"
 	"sync"
 	"sync/atomic"
 
@@ -50,6 +51,22 @@ var finalLabels = [][]string{
 // lsetN builds label set L carrying the replica labels `names`; r is a base-3 number whose i-th digit is
 // the value of names[i] (0 = that label is absent). No names = the single replica label "r".
 func lsetN(l, r int, names []string) labels.Labels {
+	key := lsetKey{l, r, strings.Join(names, ",")}
+	if v, ok := lsetCache.Load(key); ok {
+		return v.(labels.Labels).Copy() // a private copy: the code under test may modify what it is given
+	}
+	v, _ := lsetCache.LoadOrStore(key, buildLset(l, r, names))
+	return v.(labels.Labels).Copy()
+}
+
+type lsetKey struct {
+	l, r  int
+	names string
+}
+
+var lsetCache sync.Map
+
+func buildLset(l, r int, names []string) labels.Labels {
 	kv := append([]string(nil), finalLabels[l]...)
 	if len(names) == 0 {
 		names = []string{ReplicaLabel}
